@@ -68,6 +68,20 @@ fn plan(prop: &str, thorough: bool, seed: u64) -> Plan {
         "C17" => { add(&TRADE, 500, &mut tasks); add(&GRIND, 200, &mut tasks); add(&ROLES, 150, &mut tasks); add(&HOSTILE, 100, &mut tasks); p.marker_matrix = true; }
         _ => { add(&TRADE, 200, &mut tasks); add(&HOSTILE, 100, &mut tasks); add(&GRIND, 60, &mut tasks); add(&BIG, 40, &mut tasks); add(&LEGACY, 40, &mut tasks); add(&DEEP, 10, &mut tasks); for i in 0..100 { tasks.push(Task::Migration(seed * 77 + i)); } p.marker_matrix = true; p.inst_matrix = true; p.modify_matrix = true; p.version_matrix = true; p.integrality = true; }
     }
+    if let Some(lim) = std::env::var("VERIF_TASK_LIMIT").ok().and_then(|s| s.parse::<usize>().ok()) {
+        // reduced workload for the sanitizer runs (valgrind / Miri): an even sample of the task list
+        if tasks.len() > lim && lim > 0 {
+            let step = tasks.len() / lim;
+            tasks = tasks.into_iter().step_by(step.max(1)).take(lim).collect();
+        }
+    }
+    if std::env::var("VERIF_NO_MATRICES").is_ok() {
+        p.marker_matrix = false;
+        p.inst_matrix = false;
+        p.integrality = false;
+        p.modify_matrix = false;
+        p.version_matrix = false;
+    }
     p.tasks = tasks;
     p
 }
